@@ -42,7 +42,13 @@ const Statement * DOStatement::doit(Context& ctx) const
 void DOStatement::unparse(Context& ctx, FILE * out) const
 {
   if (_exp != nullptr)
+  {
+    /* without the keyword only an expression starting with a word is a
+     * statement: `do (1 + 2);` saved as `(1 + 2);` could not be loaded */
+    fputs(Statement::KEYWORDS[keyword()], out);
+    fputc(' ', out);
     fputs(_exp->unparse(ctx).c_str(), out);
+  }
 }
 
 DOStatement * DOStatement::parse(Parser& p, Context& ctx)
